@@ -293,10 +293,12 @@ CONFIG = [
                 'self.ts_matcher_cls': 'ts_match'}}),
     ('seeker_run', 'searchkit/constraints.py', 'LogFileDateSinceSeeker.run',
      {'locks': {}, 'calls': {'bisect.bisect_left': 'bisect_left',
-                             'self.try_find_line_with_date': 'tfld'}}),
+                             'self.try_find_line_with_date': 'tfld'},
+      'cells': {'result.date': 'line_date'}}),
     ('seeker_getitem', 'searchkit/constraints.py',
      'LogFileDateSinceSeeker.__getitem__',
-     {'locks': {}, 'calls': {'self.try_find_line_with_date': 'tfld'}}),
+     {'locks': {}, 'calls': {'self.try_find_line_with_date': 'tfld'},
+      'cells': {'result.date': 'line_date'}}),
     ('find_token', 'searchkit/constraints.py',
      'LogFileDateSinceSeeker.find_token',
      {'locks': {}, 'calls': {'self.file.read': 'read',
@@ -324,6 +326,29 @@ CONFIG = [
                 "self.stats['total_jobs']": 'total_jobs'}}),
     ('stats_update', 'searchkit/task.py', 'SearchTaskStats.update',
      {'locks': {}, 'cells': {'self.data[key]': 'stat_slot'}}),
+    ('apply_global', 'searchkit/search.py',
+     'SearchConstraintsManager.apply_global',
+     {'locks': {}, 'calls': {'c.apply_to_file': 'apply_to_file'}}),
+    ('apply_single', 'searchkit/search.py',
+     'SearchConstraintsManager.apply_single',
+     {'locks': {}, 'calls': {'c.apply_to_line': 'apply_to_line'}}),
+    ('apply_to_line', 'searchkit/constraints.py',
+     'SearchConstraintSearchSince.apply_to_line',
+     {'locks': {}, 'calls': {'self.extracted_datetime':
+                             'extracted_datetime'}}),
+    ('try_find_line', 'searchkit/constraints.py',
+     'LogFileDateSinceSeeker.try_find_line',
+     {'locks': {}, 'calls': {'self.find_token': 'find_token',
+                             'self.find_token_reverse':
+                             'find_token_reverse'}}),
+    ('tfld', 'searchkit/constraints.py',
+     'LogFileDateSinceSeeker.try_find_line_with_date',
+     {'locks': {}, 'calls': {'self.try_find_line': 'try_find_line'},
+      'cells': {'log_line.date': 'line_date'}}),
+    ('logline_date', 'searchkit/constraints.py', 'LogLine.date',
+     {'locks': {}, 'calls': {'self._constraint.extracted_datetime':
+                             'extracted_datetime',
+                             'self._read_line': 'read_line'}}),
 ]
 
 ARG0 = {'Acq', 'Rel', 'Rd', 'Wr', 'Call', 'Handler', 'RaiseE'}
@@ -333,6 +358,54 @@ def coq_ev(ev):
     if ev[0] in ARG0:
         return f'{ev[0]} "{ev[1]}"'
     return ev[0]
+
+
+def to_tree(evs):
+    """ flat event list with structure markers -> nested Coq `list stm` """
+    pos = [0]
+
+    def block(stops):
+        out = []
+        while pos[0] < len(evs) and evs[pos[0]][0] not in stops:
+            e = evs[pos[0]]
+            k = e[0]
+            pos[0] += 1
+            if k == 'IfB':
+                a = block({'Else'})
+                pos[0] += 1
+                b = block({'IfE'})
+                pos[0] += 1
+                out.append(f"SIf {a} {b}")
+            elif k == 'LoopB':
+                b = block({'LoopE'})
+                pos[0] += 1
+                out.append(f"SLoop {b}")
+            elif k == 'TryB':
+                body = block({'Handler', 'TryElse', 'FinallyB', 'TryE'})
+                hs, orelse, fin = [], "[]", "[]"
+                while evs[pos[0]][0] != 'TryE':
+                    m = evs[pos[0]]
+                    pos[0] += 1
+                    part = block({'Handler', 'TryElse', 'FinallyB', 'TryE'})
+                    if m[0] == 'Handler':
+                        hs.append(f'("{m[1]}", {part})')
+                    elif m[0] == 'TryElse':
+                        orelse = part
+                    else:
+                        fin = part
+                pos[0] += 1
+                out.append(f"STry {body} [{'; '.join(hs)}] {orelse} {fin}")
+            elif k == 'RaiseE':
+                out.append(f'SRaise "{e[1]}"')
+            elif k in ('Ret', 'Break', 'Continue'):
+                out.append("SExit")
+            else:
+                out.append(f"SEv ({coq_ev(e)})")
+        return "[" + "; ".join(out) + "]"
+    t = block(set())
+    if pos[0] != len(evs):
+        raise Untranslatable("unbalanced structure markers")
+    return t
 
 
 def decorator_events(tree, fn, cfg):
@@ -366,6 +439,7 @@ def generate(repo):
     trees = {}
     failed = []
     defs = []
+    tdefs = []
     js = {}
     for name, rel, qual, cfg in CONFIG:
         try:
@@ -378,8 +452,12 @@ def generate(repo):
             w.block(fn.body)
             evs = pre + w.out + post
             js[name] = [list(e) for e in evs]
+            to_tree(evs)
             body = ";\n   ".join(coq_ev(e) for e in evs)
+            tree_txt = to_tree(evs)
             defs.append(f"Definition sk_{name} : list ev :=\n  [{body}].\n")
+            tdefs.append(f"Definition tk_{name} : list stm :=\n  "
+                         f"{tree_txt}.\n")
         except (Untranslatable, OSError, SyntaxError) as exc:
             failed.append((f"skeleton:{name}", f"{type(exc).__name__}: {exc}"))
     text = ("(* GENERATED from the repository working tree by "
@@ -388,4 +466,10 @@ def generate(repo):
             "From SK Require Import Model.Skel.\n"
             "Import ListNotations.\nOpen Scope string_scope.\n\n"
             + "\n".join(defs))
-    return text, js, failed
+    ttext = ("(* GENERATED from the repository working tree by "
+             "translator/skeleton.py - do not edit *)\n"
+             "From Coq Require Import String List.\n"
+             "From SK Require Import Model.Skel Model.Stm.\n"
+             "Import ListNotations.\nOpen Scope string_scope.\n\n"
+             + "\n".join(tdefs))
+    return text, ttext, js, failed
